@@ -1590,6 +1590,10 @@ func (p *context) patchType(typ types.Type) (r types.Type) {
 
 func (p *context) _patchType(typ types.Type) (types.Type, bool) {
 	switch typ := typ.(type) {
+	case *types.Alias:
+		// An alias denotes its actual type: `type Y = X` with X local to a generic
+		// function must follow X's per-instantiation renaming.
+		return p._patchType(types.Unalias(typ))
 	case *types.Pointer:
 		if t, ok := p._patchType(typ.Elem()); ok {
 			return types.NewPointer(t), true
